@@ -76,6 +76,18 @@ public class BigIntOverrides {
         return fromBig(toBig(a).and(BigInteger.ONE.shiftLeft(kk).subtract(BigInteger.ONE)));
     }
 
+    @TLAPlusOperator(identifier = "NDivMod", module = "BigInt", warn = false)
+    public static Value ndivmod(Value a, Value b) {
+        BigInteger[] qr = toBig(a).divideAndRemainder(toBig(b));
+        return new TupleValue(new Value[] { fromBig(qr[0]), fromBig(qr[1]) });
+    }
+
+    @TLAPlusOperator(identifier = "NSqrt", module = "BigInt", warn = false)
+    public static Value nsqrt(Value a) { return fromBig(toBig(a).sqrt()); }
+
+    @TLAPlusOperator(identifier = "NGcd", module = "BigInt", warn = false)
+    public static Value ngcd(Value a, Value b) { return fromBig(toBig(a).gcd(toBig(b))); }
+
     @TLAPlusOperator(identifier = "NTrailingZeros", module = "BigInt", warn = false)
     public static Value ntz(Value a) {
         BigInteger b = toBig(a);
